@@ -385,6 +385,11 @@ def join(a: AVal, b: AVal) -> AVal:
         )
     if isinstance(a, ObjV) and isinstance(b, ObjV):
         return join_objects(a, b)
+    # a tensor or None (a slot being filled, an optional gradient)
+    if isinstance(a, Const) and a.v is None and isinstance(b, TV) and not b.is_py and b.note in ("", "optional", "clone"):
+        return b.but(note="optional")
+    if isinstance(b, Const) and b.v is None and isinstance(a, TV) and not a.is_py and a.note in ("", "optional", "clone"):
+        return a.but(note="optional")
     if isinstance(a, Const) and isinstance(b, TV):
         ta = const_to_tv(a)
         return join(ta, b) if isinstance(ta, TV) else Unk(f"join of {a.v!r} with a value")
@@ -406,7 +411,7 @@ def join(a: AVal, b: AVal) -> AVal:
         ea = a.elem if a.items is None else _join_all(a.items)
         eb = b.elem if b.items is None else _join_all(b.items)
         return ListV(items=None, elem=join(ea, eb) if ea is not None and eb is not None else (ea or eb), kind=a.kind,
-                     over=a.over if a.over == b.over else None, order=a.order if a.order == b.order else None)
+                     over=a.over if a.over == b.over else None, order=_join_order(a.order, b.order))
     if isinstance(a, (ListV, SetV)) and isinstance(b, (ListV, SetV)) and type(a) is not type(b):
         # key collections met as a list on one path and as a set on the other: keep the set view
         def as_set(x):
@@ -450,6 +455,18 @@ def join(a: AVal, b: AVal) -> AVal:
 
         return SetV(items=None, elem=join(ea, eb) if ea is not None and eb is not None else (ea or eb), atoms=at(a) | at(b))
     return Unk(f"join of {type(a).__name__}/{type(b).__name__}")
+
+
+def _join_order(oa, ob):
+    """Order token of a list that is `a` on one path and `b` on another: a constant fill (`[x] * n`) adopts the other's order."""
+    if oa == ob:
+        return oa
+    if oa is not None and ob is not None:
+        if oa[1] == "const":
+            return ob
+        if ob[1] == "const":
+            return oa
+    return None
 
 
 def join_objects(a: "ObjV", b: "ObjV", depth: int = 0) -> AVal:
